@@ -1,15 +1,20 @@
 package props
 
 import (
+	"context"
 	"fmt"
+	"net"
 	"sort"
 	"strings"
 	"time"
 
+	"cqlsim/simnet"
 	"cqlsim/simrt"
 	"cqlsim/world"
 
+	"github.com/datastax/cql-proxy/proxy"
 	"github.com/datastax/cql-proxy/proxycore"
+	"go.uber.org/zap"
 	"github.com/datastax/go-cassandra-native-protocol/message"
 	"github.com/datastax/go-cassandra-native-protocol/primitive"
 )
@@ -107,6 +112,125 @@ func keysOf(m map[string]int) string {
 	return strings.Join(k, ",")
 }
 
+// httpGet sends one HTTP request to a SUT listener and returns the status code and body.
+func httpGet(w *world.World, lis *simnet.Listener, path string) (int, string) {
+	pe := &simnet.PeerEnd{}
+	l, err := w.N.Connect(lis, pe, nil, "http-probe")
+	if err != nil {
+		return -1, err.Error()
+	}
+	pe.L = l
+	l.PeerWrite([]byte("GET " + path + " HTTP/1.1\r\nHost: probe\r\nConnection: close\r\n\r\n"))
+	var resp []byte
+	done := false
+	simrt.Go("http-probe", func() {
+		buf := make([]byte, 4096)
+		for {
+			n, err := pe.Read(buf)
+			resp = append(resp, buf[:n]...)
+			if err != nil {
+				break
+			}
+		}
+		done = true
+	})
+	w.RunUntil(func() bool { return done }, 30*time.Second)
+	if !done {
+		l.PeerReset()
+	}
+	code := -1
+	fmt.Sscanf(string(resp), "HTTP/1.1 %d", &code)
+	body := string(resp)
+	if i := strings.Index(body, "\r\n\r\n"); i >= 0 {
+		body = body[i+4:]
+	}
+	return code, body
+}
+
+// c16Readiness checks the readiness endpoint of the real entry point (proxy.Run --health-check).
+func c16Readiness(e *Env, cfg world.Config) {
+	c := e.C
+	cfg.Hosts = 1 + c.Choose("rhosts", 2)
+	cfg.KeepLog = e.Keep
+	w := world.New(cfg, e.S, e.N, e.C)
+	e.W = w
+	e.N.LoggerHook = func(string) (*zap.Logger, error) { return zap.NewNop(), nil }
+	rt := []string{"30s", "10s", "45s"}[c.Choose("rtimeout", 3)]
+	rtd, _ := time.ParseDuration(rt)
+	var cps []string
+	for _, n := range w.Nodes {
+		cps = append(cps, n.IP.String())
+	}
+	args := []string{"--contact-points", strings.Join(cps, ","), "--bind", "127.0.0.1:9042", "--health-check", "--http-bind", "127.0.0.1:8000", "--readiness-timeout", rt}
+	ctx, cancel := context.WithCancel(context.Background())
+	defer cancel()
+	done := false
+	simrt.Go("proxy.Run", func() { proxy.Run(ctx, args); done = true })
+	w.RunUntil(func() bool { return done || len(w.N.Listeners()) >= 2 }, 5*time.Minute)
+	if w.Stopped() {
+		return
+	}
+	if done || len(w.N.Listeners()) < 2 {
+		e.Res.Infra = "proxy.Run with --health-check did not start both listeners"
+		return
+	}
+	var httpL *simnet.Listener
+	for _, l := range w.N.Listeners() {
+		if l.Addr().(*net.TCPAddr).Port == 8000 {
+			httpL = l
+		}
+	}
+	expect := func(when string, wantCode int) bool {
+		code, body := httpGet(w, httpL, "/readiness")
+		if w.Stopped() {
+			return false
+		}
+		if code != wantCode {
+			w.Violate("c16-readiness", fmt.Sprintf("readiness-%d-expected-%d", code, wantCode), fmt.Sprintf("%s: GET /readiness answered %d (%s), expected %d (readiness timeout %s)", when, code, strings.TrimSpace(body), wantCode, rt))
+			return false
+		}
+		e.Res.Stats["oracle.c16.readiness_probes_checked"]++
+		return true
+	}
+	if code, _ := httpGet(w, httpL, "/liveness"); code != 200 && !w.Stopped() {
+		w.Violate("c16-readiness", "liveness-not-200", fmt.Sprintf("GET /liveness answered %d", code))
+		return
+	}
+	if !expect("control connection up", 200) {
+		return
+	}
+	// total outage: every node goes down
+	for _, n := range w.Nodes {
+		n.Crash()
+	}
+	w.Stat("fault.total-outage")
+	w.Quiesce()
+	t0 := w.Now()
+	w.RunUntil(func() bool { return false }, rtd/2)
+	if !expect(fmt.Sprintf("%v into the outage (below the readiness timeout)", w.Now()-t0), 200) {
+		return
+	}
+	w.RunUntil(func() bool { return false }, rtd)
+	if !expect(fmt.Sprintf("%v into the outage (beyond the readiness timeout)", w.Now()-t0), 503) {
+		return
+	}
+	for _, n := range w.Nodes {
+		n.Restart()
+	}
+	if !w.RunUntil(func() bool { return len(w.ControlConns) > 0 }, 25*time.Minute) {
+		if !w.Stopped() {
+			w.Violate("c16-failover", "control-connection-not-reestablished", "25 minutes after the nodes came back no control connection exists")
+		}
+		return
+	}
+	w.Quiesce()
+	if !expect("control connection re-established", 200) {
+		return
+	}
+	e.Res.Nontrivial = true
+	e.Res.Sample = fmt.Sprintf("readiness: timeout %s, %d hosts, 200 -> 200 (outage below timeout) -> 503 -> 200 after recovery", rt, cfg.Hosts)
+}
+
 // C16 — the proxy tracks backend topology and heals lost backend connections.
 func c16(e *Env) {
 	c := e.C
@@ -117,6 +241,12 @@ func c16(e *Env) {
 	cfg.ReconnBase = []time.Duration{50 * time.Millisecond, 500 * time.Millisecond, 2 * time.Second, 5 * time.Second}[c.Choose("base", 4)]
 	cfg.ReconnMax = []time.Duration{time.Second, 10 * time.Second, time.Minute, 10 * time.Minute}[c.Choose("max", 4)]
 	cfg.MaxSteps = 1500000
+	if c.Choose("readiness-shape", 6) == 5 {
+		e.Res.Shape = "readiness"
+		e.Res.Stats["probe.c16.shape.readiness"]++
+		c16Readiness(e, cfg)
+		return
+	}
 	w, pi := boot(e, cfg)
 	if pi.BootErr != nil || pi.Listener == nil {
 		if !w.Stopped() {
